@@ -2,6 +2,8 @@ package PKGNAME
 
 import (
 	"go/token"
+	"os"
+	"path/filepath"
 	"fmt"
 	"reflect"
 	"unsafe"
@@ -140,4 +142,45 @@ func vfFieldElem(v interface{}, name string, i int) interface{} {
 		f = f.Index(i)
 	}
 	return f.Interface()
+}
+
+// File-system API (C20): symbolically an in-memory model of the os layer; natively a real temporary
+// directory.
+var vfFSDir string
+
+func vfFSRoot() string {
+	if vfFSDir == "" {
+		d, err := os.MkdirTemp("", "vfs")
+		if err != nil {
+			panic(err)
+		}
+		vfFSDir = d
+	}
+	return vfFSDir
+}
+
+func vfFSPut(name, content string) {
+	os.MkdirAll(filepath.Dir(name), 0o755)
+	if err := os.WriteFile(name, []byte(content), 0o644); err != nil {
+		panic(err)
+	}
+}
+
+func vfFSGet(name string) (string, bool) {
+	b, err := os.ReadFile(name)
+	if err != nil {
+		return "", false
+	}
+	return string(b), true
+}
+
+func vfFSCount() int {
+	n := 0
+	filepath.Walk(vfFSRoot(), func(p string, info os.FileInfo, err error) error {
+		if err == nil && !info.IsDir() {
+			n++
+		}
+		return nil
+	})
+	return n
 }
